@@ -49,10 +49,17 @@ def _override_fields(draw, allow_hide=True):
 
 
 @st.composite
-def _new_block(draw):
-    kind = draw(st.sampled_from(["abs", "rel", "url", "remote", "remoterel"]))
+def _new_block(draw, existing=None):
+    """existing = (directory selector, child names): a new link may also point at an object the directory lists anyway
+    (absolute or relative spelling, local or under a foreign host) - it is still a NEW entry, whatever happens to the child"""
+    kind = draw(st.sampled_from(["abs", "rel", "url", "remote", "remoterel"] + (["same-abs", "same-rel", "same-remote"] if existing and existing[1] else [])))
     host, port = "+", "+"
-    if kind == "abs":
+    if kind.startswith("same"):
+        child = draw(st.sampled_from(existing[1]))
+        path = child if kind == "same-rel" else (existing[0].rstrip("/") + "/" + child)
+        if kind == "same-remote":
+            host, port = "mirror.example", "70"
+    elif kind == "abs":
         path = "/" + "/".join(draw(st.lists(base_st, min_size=1, max_size=3)))
     elif kind == "rel":
         path = "/".join(draw(st.lists(base_st, min_size=1, max_size=2)))
@@ -86,6 +93,7 @@ def _case(draw):
                              "title": draw(title_st) if ext == ".html" else None,
                              "abstract": draw(st.one_of(st.none(), st.none(), st.lists(abs_line, min_size=1, max_size=2)))})
     names = [c["name"] for c in children]
+    depth = draw(st.sampled_from([0, 1]))
     overridable = list(names)
     linkfiles = []
     for lf in draw(st.lists(st.sampled_from([".names", ".Links", ".link"]), max_size=3, unique=True)):
@@ -99,7 +107,7 @@ def _case(draw):
                 fields.insert(pos, ["Path", draw(st.sampled_from(["./", "./", "~/"])) + target])
                 blocks.append({"new": False, "fields": fields, "comment": draw(st.booleans())})
             else:
-                blocks.append(draw(_new_block()))
+                blocks.append(draw(_new_block((("/top" if depth else "/"), names))))
         linkfiles.append([lf, blocks])
     caps = []
     linked = {f[1][2:] for _, bl in linkfiles for b in bl if not b["new"] for f in b["fields"] if f[0] == "Path"}
@@ -107,7 +115,7 @@ def _case(draw):
         # an entry hidden by its .cap file is not listed any more: a link-file override of it has no documented meaning
         caps.append([target, list(draw(_override_fields(allow_hide=target not in linked)))])
     return {"children": children, "linkfiles": linkfiles, "caps": caps,
-            "extstrip": draw(st.sampled_from(["none", "nonencoded", "full"])), "depth": draw(st.sampled_from([0, 1]))}
+            "extstrip": draw(st.sampled_from(["none", "nonencoded", "full"])), "depth": depth}
 
 
 def strategy(tier):
